@@ -42,7 +42,7 @@ SPECS = {
     'rumour': (['S', 'I', 'R'], [], [(('I', 'S'), ('I', 'I'), 'tau'), (('I', 'I'), ('I', 'R'), 'sigma')]),
     'vacc': (['S', 'I', 'R', 'V'], [('S', 'V', 'nu'), ('I', 'R', 'gamma')], [(('I', 'S'), ('I', 'I'), 'tau')]),
 }
-DIGRAPHS_Q = ['D:2:01', 'D:3:01,12', 'D:3:01,10,12', 'D:3:01,12,20', 'D:3:01,12,11']      # the last one has a self-loop
+DIGRAPHS_Q = ['D:2:01', 'D:3:01,12', 'D:3:01,10,12', 'D:3:01,12,20', 'D:3:02,12,20', 'D:3:01,12,11']      # the last one has a self-loop
 
 
 def _ics(spec, n, tier):
@@ -114,7 +114,7 @@ def c09_configs(tier):
     out = []
     E = 3 if tier == 'quick' else 4
     for spec in (['SIS', 'SEIR', 'compete', 'rumour'] if tier == 'quick' else list(SPECS)):
-        for g in (['P3', 'D:3:01,12,20'] if tier == 'quick' else ['P3', 'K3'] + DIGRAPHS_Q):
+        for g in (['P3', 'D:3:01,12,20', 'D:3:01,10,12'] if tier == 'quick' else ['P3', 'K3'] + DIGRAPHS_Q):      # (incl. a reciprocal directed pair)
             directed = g.startswith('D:')
             n = graphs.make(g, directed=directed).order()
             for ic in _ics(spec, n, 'quick')[:3]:
